@@ -75,7 +75,13 @@ def adaptive_cases(tier, rng):
         seq = sorted((rng.choice(RI) for _ in range(n)), reverse=True) if rng.random() < 0.7 else [rng.choice(RI) for _ in range(n)]
         avoid.append(dict(problem='test', e_tol=1e-5, dt=0.1, tend=0.15, maxiter=rng.choice([2, 3]), max_restarts=rng.choice([1, 2]),
                           crash=rng.random() < 0.5, script=seq, per_iteration=True, avoid_restarts=True))
-    return C + scripted + avoid
+    # adaptivity for converged collocation problems (polynomial error estimate): restarts for non-convergence (with interpolation of
+    # the iterate to the new nodes) and for too large estimates in one run; only the state-machine clauses apply
+    poly = []
+    for k in range(40 if tier == 'quick' else 400):
+        poly.append(dict(problem='vdp', flavour='poly', mu=rng.choice([5.0, 10.0, 30.0]), e_tol=10 ** rng.uniform(-7, -4), dt=rng.choice([0.1, 0.05, 0.2]),
+                         tend=rng.choice([0.5, 1.0]), maxiter=rng.choice([3, 4, 5]), max_restarts=12, crash=False))
+    return C + scripted + avoid + poly
 
 
 def _adapt_validate(args):
@@ -140,7 +146,7 @@ def run(tier, seed):
             if 'error' in o:
                 rep.problem('adaptive run failed: ' + o['error'], dict(kind='adaptive-run', case=c), clause='adapt.unexpected_library_error')
             else:
-                runs.append(dict(tid=k + 1, case=c, exc=o['exc'], att=o['att'], max_restarts=o['max_restarts']))
+                runs.append(dict(tid=k + 1, case=c, exc=o['exc'], att=o['att'], max_restarts=o['max_restarts'], full=o.get('full', True)))
         # validation by TLC, in parallel batches
         nb = 16
         batches = [[{k: v for k, v in r.items() if k != 'case'} for r in runs[i::nb]] for i in range(nb)]
